@@ -35,50 +35,53 @@ type AssertSpec struct {
 	After  bool   // placed after the call (default: before)
 	Lemma  string // apply: instantiate this (separately proved) lemma with Args and assume it
 	Args   []*Expr
+	Bind   string // bind: name given to the value of E at this point
 }
 
 type Contract struct {
-	Key        string // canonical function key
-	Pkg        string
-	Rel        string
-	File       string
-	Line       int
-	Properties []string
-	Cfgs       []string
-	Mode       string
-	Trusted    bool
-	Inline     bool
-	Pure       bool
-	NoOverflow bool
-	HeapNonNil bool // sweep contracts: pointers and interfaces loaded from memory are assumed non-nil
-	Requires   []*Expr
-	Ensures    []*Expr
-	Modifies   []*Expr
-	ModHeaps   []string // whole component heaps (weak frame, used for assembly routines)
-	ModFresh   []string // component heaps, but only objects allocated since the verified function was entered
-	ModAll     bool
-	PanicsIff  *Expr
-	Decreases  *Expr
-	MayPanic   bool
-	Loops      map[int]*LoopSpec
-	Asserts    []AssertSpec
-	Lets       []LetSpec
-	GhostSets  []GhostSet
-	Nullable   map[string]bool
-	AliasOK    map[string]bool
-	Fresh      []string // results declared fresh
-	Witness     map[string][]string // parameter -> candidate inputs (hex) tried by the replay when the model does not reproduce
-	ParamNames  string            // names for the parameters of a contract attached to a function type
-	FnSpecs     map[string]string // function-typed parameter -> contract key used for calls through it
-	InlineCalls map[string]bool
-	HavocCalls  map[string]bool
-	Uses       []string // lemmas
-	Unroll     int
-	Replay     string
-	Configs    []ConfigSpec
-	QuickCfg   map[string][]int64
-	Paths      int
-	Timeout    int
+	Key          string // canonical function key
+	Pkg          string
+	Rel          string
+	File         string
+	Line         int
+	Properties   []string
+	Cfgs         []string
+	Mode         string
+	Trusted      bool
+	Inline       bool
+	Pure         bool
+	NoOverflow   bool
+	HeapNonNil   bool // sweep contracts: pointers and interfaces loaded from memory are assumed non-nil
+	Requires     []*Expr
+	Ensures      []*Expr
+	Modifies     []*Expr
+	ModHeaps     []string // whole component heaps (weak frame, used for assembly routines)
+	FreshOrNil   map[string]bool
+	CoverReturns bool     // "coverreturns": every return statement must be reachable under the assumed contracts
+	ModFresh     []string // component heaps, but only objects allocated since the verified function was entered
+	ModAll       bool
+	PanicsIff    *Expr
+	Decreases    *Expr
+	MayPanic     bool
+	Loops        map[int]*LoopSpec
+	Asserts      []AssertSpec
+	Lets         []LetSpec
+	GhostSets    []GhostSet
+	Nullable     map[string]bool
+	AliasOK      map[string]bool
+	Fresh        []string            // results declared fresh
+	Witness      map[string][]string // parameter -> candidate inputs (hex) tried by the replay when the model does not reproduce
+	ParamNames   string              // names for the parameters of a contract attached to a function type
+	FnSpecs      map[string]string   // function-typed parameter -> contract key used for calls through it
+	InlineCalls  map[string]bool
+	HavocCalls   map[string]bool
+	Uses         []string // lemmas
+	Unroll       int
+	Replay       string
+	Configs      []ConfigSpec
+	QuickCfg     map[string][]int64
+	Paths        int
+	Timeout      int
 }
 
 type ConfigSpec struct {
@@ -117,12 +120,12 @@ type LemmaDef struct {
 }
 
 type GuardDef struct {
-	Pkg   string
-	Kind  string // guarded | immutable
-	Type  string
-	Field []string
-	By    string
-	After []string
+	Pkg        string
+	Kind       string // guarded | immutable
+	Type       string
+	Field      []string
+	By         string
+	After      []string
 	Properties []string
 }
 
@@ -134,7 +137,7 @@ type ContractDB struct {
 	Ghosts  map[string]string // ghost heap name -> element sort
 	GhostOf map[string]string // ghost heap name -> owning struct type (ghost field)
 	SpecFns map[string]*SpecFn
-	Prelude []string          // raw SMT-LIB prelude chunks (in order)
+	Prelude []string // raw SMT-LIB prelude chunks (in order)
 	Order   []string
 }
 
@@ -361,8 +364,9 @@ func (db *ContractDB) LoadContractFile(path, pkgPath string) error {
 			default:
 				return fail("unknown loop clause %q", w3)
 			}
-		case "assert", "apply":
+		case "assert", "apply", "bind":
 			// assert before|after call f#k: E        apply before|after call f#k: lemma(args)
+			// bind before|after call f#k: name := E  (names a value as it is at that point)
 			r := strings.TrimSpace(rest)
 			if strings.HasPrefix(r, "at entry") {
 				r = "before call @entry" + strings.TrimPrefix(r, "at entry")
@@ -381,11 +385,20 @@ func (db *ContractDB) LoadContractFile(path, pkgPath string) error {
 			if ordS != "" {
 				ord, _ = strconv.Atoi(ordS)
 			}
-			e, err := pe(r[k+1:])
+			body := r[k+1:]
+			bindName := ""
+			if word == "bind" {
+				n, b2, ok := strings.Cut(body, ":=")
+				if !ok {
+					return fail("bind before|after call f#k: name := E")
+				}
+				bindName, body = strings.TrimSpace(n), b2
+			}
+			e, err := pe(body)
 			if err != nil {
 				return err
 			}
-			as := AssertSpec{Callee: callee, Ord: ord, E: e, After: after}
+			as := AssertSpec{Callee: callee, Ord: ord, E: e, After: after, Bind: bindName}
 			if word == "apply" {
 				if e.Kind != "call" {
 					return fail("apply ...: lemma(args)")
@@ -452,6 +465,17 @@ func (db *ContractDB) LoadContractFile(path, pkgPath string) error {
 		case "fresh":
 			for _, n := range strings.Fields(strings.ReplaceAll(rest, ",", " ")) {
 				cur.Fresh = append(cur.Fresh, n)
+			}
+		case "coverreturns":
+			cur.CoverReturns = true
+		case "freshornil":
+			// the result is nil or newly allocated (callers explore both)
+			for _, n := range strings.Fields(strings.ReplaceAll(rest, ",", " ")) {
+				cur.Fresh = append(cur.Fresh, n)
+				if cur.FreshOrNil == nil {
+					cur.FreshOrNil = map[string]bool{}
+				}
+				cur.FreshOrNil[n] = true
 			}
 		case "inlinecall":
 			for _, n := range strings.Fields(strings.ReplaceAll(rest, ",", " ")) {
@@ -922,7 +946,9 @@ func (p *lexer) parseAnd() (*Expr, error) { return p.parseBin([]string{"&&"}, p.
 func (p *lexer) parseCmp() (*Expr, error) {
 	return p.parseBin([]string{"==", "!=", "<=", ">=", "<", ">"}, p.parseAddE)
 }
-func (p *lexer) parseAddE() (*Expr, error) { return p.parseBin([]string{"+", "-", "|", "^"}, p.parseMulE) }
+func (p *lexer) parseAddE() (*Expr, error) {
+	return p.parseBin([]string{"+", "-", "|", "^"}, p.parseMulE)
+}
 func (p *lexer) parseMulE() (*Expr, error) {
 	return p.parseBin([]string{"*", "/", "%", "<<", ">>", "&^", "&"}, p.parseUnary)
 }
